@@ -883,6 +883,47 @@ func (f *Frame) evalCall(e *spec.Call, st, old *State) TV {
 		a := f.eval(e.Args[0], st, old)
 		live := x.heapGet(st, "$live", smt.Array(RefS, smt.Bool))
 		return TV{B.Select(live, x.scalar(a.V, a.T)), types.Typ[types.Bool]}
+	case "wascalled", "lastcall":
+		// ghost call history: wascalled("callee") is the path condition under which the function
+		// under verification made its (last) static call of callee; lastcall("callee", i) its i-th result
+		if len(e.Args) < 1 {
+			specErr("%s(\"callee\" ...)", name)
+		}
+		lit, ok := e.Args[0].(*spec.Lit)
+		if !ok {
+			specErr("%s: the callee is given as a string literal", name)
+		}
+		callee, err := strconv.Unquote(lit.Val)
+		if err != nil {
+			specErr("%s: %v", name, err)
+		}
+		var rec *callRec
+		for fr := f; fr != nil && rec == nil; fr = fr.outer {
+			if fr.callHist != nil {
+				rec = fr.callHist[callee]
+			}
+		}
+		if name == "wascalled" {
+			if rec == nil {
+				return TV{B.False(), types.Typ[types.Bool]}
+			}
+			if rec.n > 1 {
+				specErr("wascalled(%q): the function calls it at %d sites; the history ghost covers a single call site", callee, rec.n)
+			}
+			return TV{rec.pc, types.Typ[types.Bool]}
+		}
+		if rec == nil || len(e.Args) != 2 {
+			specErr("lastcall(%q, i): no such call on any path / index missing", callee)
+		}
+		il, ok := e.Args[1].(*spec.Lit)
+		if !ok {
+			specErr("lastcall: the result index is a literal")
+		}
+		i, _ := strconv.Atoi(il.Val)
+		if i < 0 || i >= len(rec.results) {
+			specErr("lastcall(%q, %d): the callee has %d results", callee, i, len(rec.results))
+		}
+		return TV{rec.results[i], rec.types[i]}
 	case "real", "imag":
 		if len(e.Args) != 1 {
 			specErr("%s(z)", name)
